@@ -4,13 +4,15 @@ import json
 import os
 import re
 import platform
+import random
+import subprocess
 import struct
 import sys
 from difflib import SequenceMatcher
 
 from .. import REPO, VERIF_DIR
 from .. import oracles
-from ..gen import elfgen
+from ..gen import elfgen, dwtab
 from ..gen.leb import uleb
 
 PROP = 'C18'
@@ -31,7 +33,10 @@ RULE = ('(file, option) pairs run through GNU readelf 2.40 and `python scripts/r
         '(DW_OP per machine and in a 64-bit-format unit, regx/bregx over each register table, DW_TAG, DW_AT by class, DW_FORM, '
         'value enumerations, DW_UT, DW_CFA, ARM and RISC-V attributes), judged entry by entry; (generated) linker/compiler-'
         'shaped files from the envelope generators (versions, notes, symtab, relocs, layout, dumps, lines, frames, names, '
-        'loclists). A pair is non-trivial when both programs print at least 3 lines; a table entry is non-trivial always. '
+        'loclists); (inprocess) one interpreter dumps a sequence of 70-odd files through the clone\'s main() - two files of one '
+        'layout whose import attributes hold the same offset but name different entries, alternated 25 times, then pairs of '
+        'generated files of three families and two table files in random order - and every text must equal what a process of '
+        'its own prints for that file and option (which the other kinds compare with GNU readelf). A pair is non-trivial when both programs print at least 3 lines; a table entry is non-trivial always. '
         'programs = pairs + table entries compared.')
 ASSUMPTIONS = [
     'oracle: GNU readelf 2.40 (the project pins >= 2.41); pairs where 2.40 is known to print an older layout '
@@ -50,7 +55,7 @@ ASSUMPTIONS = [
     'notes are generated without annobin/stapsdt owners, RELR sections are not displayed by the clone, core-file notes live in '
     'segments the clone does not print: files with those features are skipped for the option concerned',
 ]
-KINDS = {'corpus': (288, 1011, 0), 'system': (22, 64, 1), 'compiled': (32, 86, 1), 'descr': (64, 64, 2), 'dwdescr': (40, 40, 1), 'generated': (260, 2600, 4)}
+KINDS = {'corpus': (288, 1011, 0), 'system': (22, 64, 1), 'compiled': (32, 86, 1), 'descr': (64, 64, 2), 'dwdescr': (40, 40, 1), 'generated': (260, 2600, 4), 'inprocess': (16, 96, 1)}
 FLOOR = {'quick': 150, 'thorough': 600}
 CASE_TIMEOUT = 1200
 OPTIONS = ['-e', '-d', '-s', '-n', '-r', '-x.text', '-p.shstrtab', '-V', '--debug-dump=info', '--debug-dump=decodedline',
@@ -1365,6 +1370,85 @@ def run_generated(idx, rng, sh):
                              message=msg[:700], shape=jsonable_small(desc), image_hex=img.hex() if len(img) < 6000 else None)
 
 
+def import_pair():
+    """Two files of one layout whose DW_AT_import attributes hold the same offset but name different entries."""
+    imgs = []
+    for tags in ((0x39, 0x34), (0x34, 0x39)):
+        cu = dwtab.CU(version=4)
+        cu.add(tags[0], [], label='first')
+        cu.add(tags[1], [], label='other')
+        first_off = cu.header_size() + 1 + len(cu.root_name) + 1
+        cu.add(0x3a, [(0x18, 0x13, struct.pack('<I', first_off), None)], label='imp')
+        cu.add(0x08, [(0x18, 0x13, struct.pack('<I', first_off), None)], label='imp2')
+        unit, ab, offs = cu.build()
+        assert offs[0] == first_off
+        imgs.append(oracles.wrap_debug({'.debug_info': unit, '.debug_abbrev': ab}, True))
+    return imgs
+
+
+def run_inprocess(idx, rng, sh):
+    """One interpreter dumps a sequence of files through the clone's main(); every text must equal what a process of its
+    own prints for that (file, option) - which the other kinds compare with GNU readelf."""
+    fams = gen_families()
+    with oracles.Scratch() as s:
+        files = []          # (path, option)
+        for k, img in enumerate(import_pair()):
+            files.append((s.write('imp%d.elf' % k, img), '--debug-dump=info'))
+        picks = [(idx + j * 5) % len(fams) for j in range(3)]
+        for j, f in enumerate(picks):
+            name, options, gen = fams[f]
+            for v in (0, 1):            # two files of one family: alike in layout, different in content
+                r2 = random.Random('%d:%s:%d:%d' % (sh.seed, name, idx, v))
+                r2.variant = idx * 2 + v
+                img, desc = gen(r2)
+                files.append((s.write('f%d_%d_%s.elf' % (j, v, name), img), options[(idx + v) % len(options)] if len(options) > 1 and name != 'dumps' else options[0]))
+        tabs = dw_tables()
+        for j in range(2):
+            t = tabs[(idx * 2 + j) % len(tabs)]
+            img, _ = t[2]()
+            files.append((s.write('t%d.elf' % j, img), t[1]))
+        single = {}
+        for path, option in files:
+            # (a process of its own, through the same driver so that both texts take the same way out)
+            try:
+                p1 = subprocess.run([sys.executable, os.path.join(VERIF_DIR, 'vf', 'inproc_driver.py'), REPO], input=json.dumps([[path, option]]).encode(),
+                                    stdout=subprocess.PIPE, stderr=subprocess.PIPE, timeout=300)
+                o1 = json.loads(p1.stdout.decode('utf-8', 'replace'))[0]
+            except (subprocess.TimeoutExpired, ValueError, IndexError):
+                o1 = {'out': '', 'err': 'no result'}
+            single[(path, option)] = (1 if o1['err'] else 0, o1['out'])
+        seq = []
+        for rep in range(25):
+            seq += [files[0], files[1]]
+        rest = files[2:] * 2
+        rng.shuffle(rest)
+        seq += rest
+        seq += [files[1], files[0]] * 4
+        try:
+            p = subprocess.run([sys.executable, os.path.join(VERIF_DIR, 'vf', 'inproc_driver.py'), REPO], input=json.dumps(seq).encode(),
+                               stdout=subprocess.PIPE, stderr=subprocess.PIPE, timeout=900)
+            outs = json.loads(p.stdout.decode('utf-8', 'replace'))
+        except (subprocess.TimeoutExpired, ValueError) as e:
+            sh.skip('in-process driver gave no result (%s)' % type(e).__name__)
+            return
+        for step, ((path, option), o) in enumerate(zip(seq, outs)):
+            rc, want = single[(path, option)]
+            sh.count('inprocess_dumps_compared')
+            got = o['out']
+            if rc != 0:
+                continue            # the single run failed: what it printed up to there is not a reference
+            if got != want or o['err']:
+                gl, wl = got.splitlines(), want.splitlines()
+                k = next((i for i, (a, b) in enumerate(zip(gl, wl)) if a != b), min(len(gl), len(wl)))
+                sh.violation('C18:in one process the dump of a file depends on the files dumped before it (%s): %s' % (
+                    option, o['err'] or mask((gl[k] if k < len(gl) else '<end>'))),
+                    step=step, file=os.path.basename(path), got=(gl[k] if k < len(gl) else None), single=(wl[k] if k < len(wl) else None),
+                    before=[os.path.basename(x[0]) for x in seq[max(0, step - 4):step]])
+                return
+        sh.held(sig=('inprocess', idx), n=len(seq))
+        sh.sample({'dumps_in_one_process': len(seq), 'distinct_files': len(files), 'options': sorted({o for _, o in files})}, kind='inprocess')
+
+
 def jsonable_small(d):
     return json.loads(json.dumps(d, default=str))
 
@@ -1433,6 +1517,8 @@ def run_case_inner(kind, idx, rng, sh):
         run_compiled(idx, rng, sh)
     elif kind == 'dwdescr':
         run_dwdescr(idx, rng, sh)
+    elif kind == 'inprocess':
+        run_inprocess(idx, rng, sh)
     elif kind == 'generated':
         run_generated(idx, rng, sh)
     else:
